@@ -543,7 +543,7 @@ func vfC12Run(c vfC12Case, ctx *vfCtx) *vfViolation {
 			hits := vfHitsOf(res)
 			if c.Regime == "A" && op.ThrOf > 0 {
 				// tolerance-free: a threshold equal to a reported score keeps exactly the hits up to it
-				allRes, err := mk(0, 0).Execute()
+				allRes, err := mk(op.K, 0).Execute() // the same k: a beam width that follows k is then the same on both sides
 				if err != nil {
 					return vfFail("op %d: search: %v", i, err)
 				}
